@@ -301,23 +301,31 @@ Proof.
   intros H. unfold lower, upper. destruct ((65 <=? b) && (b <=? 90)) eqn:E1; destruct ((97 <=? b) && (b <=? 122)) eqn:E2; split; lia.
 Qed.
 
+Lemma case_name_bytes c (name : list byte) : forallb (fun b => b <? 256) name = true ->
+  forallb (fun b => b <? 128) name || case_is_none c = true -> Forall (fun b => b < 256) (case_name (p_case c) name).
+Proof.
+  intros H256 H. apply orb_true_iff in H as [H|H].
+  - assert (HF : Forall (fun b => b < 128) (case_name (p_case c) name)).
+    { apply case_name_forall; [apply below_128_closed|]. apply Forall_forall. intros y Hy.
+      rewrite forallb_forall in H. specialize (H y Hy). lia. }
+    rewrite Forall_forall in *. intros x Hx. specialize (HF x Hx). lia.
+  - unfold case_is_none in H. destruct (p_case c); try discriminate H. cbn [case_name].
+    apply Forall_forall. intros y Hy. rewrite forallb_forall in H256. specialize (H256 y Hy). lia.
+Qed.
+
 Lemma RT_sym c (s : list byte) : sym_ok c s = true -> RT (OSym s) (symbol_text c s).
 Proof.
   destruct s as [|b r].
   - (* the empty name: || *)
     intros _. exists (TLeaf (LPipe [])), (OSym []). split; [exact (Reads_pipe [] (fun b (H : In b []) => match H with end))|].
     repeat split; try reflexivity; discriminate.
-  - unfold sym_ok, symbol_text. intros H. apply andb_true_iff in H as [Hascii H].
+  - unfold sym_ok, symbol_text. intros H. apply andb_true_iff in H as [Hascii H]. apply andb_true_iff in Hascii as [H256 Hascii].
     set (w := case_name (p_case c) (b :: r)).
     destruct (need_pipes (b :: r)) eqn:Enp.
     + (* |name|, escaped *)
       exists (TLeaf (LPipe w)), (OSym w).
       split.
-      { apply Reads_pipe_body, pesc_body.
-        assert (HF : Forall (fun b => b < 128) w).
-        { apply case_name_forall; [apply below_128_closed|]. apply Forall_forall. intros y Hy.
-          rewrite forallb_forall in Hascii. specialize (Hascii y Hy). lia. }
-        rewrite Forall_forall in *. intros x Hx. specialize (HF x Hx). lia. }
+      { apply Reads_pipe_body, pesc_body. apply case_name_bytes; assumption. }
       repeat split; try reflexivity; try discriminate. cbn [obj_equal]. unfold w. rewrite map_lower_case. apply bytes_eqb_refl.
     + pose proof (need_pipes_false_resolves c (b :: r) Enp) as Hres. fold w in Hres.
       destruct (bare_reads c (b :: r) H Hres) as (y & HR & Ho & He & Ht & Hd & Hne).
